@@ -989,7 +989,7 @@ func (m *M) evalBind(q *gojq.Query, e *env, in PV, emit func(PV) error) error {
 				return err
 			}
 			if _, ok := rootErr(err).(*HaltErr); ok {
-				return unsup("halt passing through a destructuring alternative")
+				return err // halt stops the program; nothing intercepts it
 			}
 			if _, ok := rootErr(err).(limitErr); ok {
 				return err
